@@ -193,6 +193,24 @@ def hash_sections(rng, vol):
     return out
 
 
+CANON_PRE = '''
+// sorting is not stable: elements that compare equal but differ in their bits (+0 / -0, NaNs with different
+// payloads) may legitimately come out in a different order, so they are printed canonically
+func canonf64s(k int, v []float64) []int64 {
+	r := make([]int64, len(v))
+	for i := 0; i < len(v); i++ {
+		if v[i] != v[i] {
+			r[i] = 0x7ff8000000000001
+		} else if v[i] == 0 {
+			r[i] = 0
+		} else {
+			r[i] = int64(math.Float64bits(v[i]))
+		}
+	}
+	return r
+}
+'''
+
 SORT_PRE = '''
 type kvT struct {
 	k int
@@ -270,8 +288,8 @@ def sort_sections(rng, vol):
             if xs:
                 xs[rng.randrange(len(xs))] = rng.choice([0x7ff8000000000001, 0xfff8000000000000])
         FL.append(xs)
-    out.append(sec("sort.Float64s", "sort", ["f64s"], "x := $0\nsort.Float64s(x)", [("jint(0, fromf64s(0, x))", "n"), B("sort.Float64sAreSorted(x)")], [(l,) for l in FL]))
-    out.append(sec("sort.Float64Slice.Sort", "sort", ["f64s"], "x := sort.Float64Slice($0)\nx.Sort()\nr1 := x.Search(1.0)", [("jint(0, fromf64s(0, x))", "n"), I("r1")], [(l,) for l in FL[::2]]))
+    out.append(sec("sort.Float64s", "sort", ["f64s"], "x := $0\nsort.Float64s(x)", [("jint(0, canonf64s(0, x))", "n"), B("sort.Float64sAreSorted(x)")], [(l,) for l in FL], pre=CANON_PRE))
+    out.append(sec("sort.Float64Slice.Sort", "sort", ["f64s"], "x := sort.Float64Slice($0)\nx.Sort()\nr1 := x.Search(1.0)", [("jint(0, canonf64s(0, x))", "n"), I("r1")], [(l,) for l in FL[::2]], pre=CANON_PRE))
     pool = [b"", b"a", b"b", b"ab", b"B", U("é"), b"aa", b"z", U("日本"), b"a\x01", b"A", b"abc", b"abd", U("ź"), U("𝄞"), b"Zebra", b"apple", b"10", b"9", b"~"]
     bad = pool + [b"\xff", b"\xfe", b"a\xff", b"\xc3", b"\x80"]
     SL = []
@@ -460,14 +478,14 @@ func (h *intHeapT) Pop() interface{} {
 	return x
 }
 
-func heapRun(k int, init []int64, ops []int64) string {
+func heapRun(k int, init []int64, ops []int64, dump int) string {
 	h := &intHeapT{}
 	for i := 0; i < len(init); i++ {
 		h.a = append(h.a, int(init[i]))
 	}
 	heap.Init(h)
 	s := "i"
-	for i := 0; i < len(h.a); i++ {
+	for i := 0; i < len(h.a) && dump != 0; i++ {
 		s += itoa64(int64(h.a[i])) + " "
 	}
 	for i := 0; i+1 < len(ops); i += 2 {
@@ -511,15 +529,27 @@ def container_sections(rng, vol):
             ops += [rng.randrange(6), rng.randrange(-7, 12)]
         rops.append((ops,))
     out.append(sec("ring.Ring.ops", "container/ring", ["ints_raw"], "r0 := ringRun(0, $0)", [S("hx(r0)")], rops, pre=RING_PRE))
-    hops = []
-    for _ in range(n):
-        init = [rng.randrange(-20, 20) for _ in range(rng.choice([0, 1, 2, 5, 9, 30]))]
-        ops = []
-        for _ in range(rng.randrange(0, 30)):
-            ops += [rng.choice([0, 0, 1, 2]), rng.randrange(-20, 20) if rng.random() < 0.9 else rng.randrange(0, 100)]
-        ops = [abs(v) if i % 2 == 1 and ops[i - 1] == 2 else v for i, v in enumerate(ops)]
-        hops.append((init, ops))
-    out.append(sec("heap.ops", "container/heap", ["ints_raw", "ints_raw"], "r0 := heapRun(0, $0, $1)", [S("hx(r0)")], hops, pre=HEAP_PRE))
+    # (a) distinct elements: the whole trace (array after Init, Remove by index) is determined by the heap algorithm;
+    # (b) duplicates, Push/Pop only: the popped sequence is determined by the heap CONTRACT;
+    # (c) duplicates with Remove-by-index: depends on how ties are broken in `down` (kept apart: keyed heap.ops-ties)
+    for kind in ("distinct", "pushpop", "ties"):
+        hops = []
+        for _ in range(n):
+            pool = list(range(-60, 60))
+            rng.shuffle(pool)
+            k0 = rng.choice([0, 1, 2, 5, 9, 30])
+            init = pool[:k0] if kind == "distinct" else [rng.randrange(-20, 20) for _ in range(k0)]
+            rest = pool[k0:]
+            ops = []
+            for _ in range(rng.randrange(0, 30)):
+                op = rng.choice([0, 0, 1, 2]) if kind != "pushpop" else rng.choice([0, 0, 1])
+                if op == 0:
+                    v = rest.pop() if kind == "distinct" and rest else rng.randrange(-20, 20)
+                else:
+                    v = rng.randrange(0, 100)
+                ops += [op, v]
+            hops.append((init, ops, 0 if kind == "pushpop" else 1))
+        out.append(sec("heap.ops-" + kind, "container/heap", ["ints_raw", "ints_raw", "i64"], "r0 := heapRun(0, $0, $1, int($2))", [S("hx(r0)")], hops, pre=HEAP_PRE))
     return out
 
 
